@@ -1272,6 +1272,32 @@ def rule_G(ctx):
                 raise shape_error('expressions on an extracted piece not interpretable: %s' % ex, fo.loc())
             except orders.PROGRAM_ERRORS as ex:
                 found.setdefault(('derived tracks', 'fails'), ('expressions on a piece cut out of a track are evaluated', {'history': hist, 'exception': '%s: %s' % (type(ex).__name__, str(ex)[:160])}))
+    # order statistics on vectors of 1 ... 11 values (the middle rank is computed from the count: every residue of the count modulo 4,
+    # and for MAD the count of the values that are not NaN)
+    def med_(vs):
+        s2 = sorted(vs)
+        m_ = len(s2)
+        return s2[m_ // 2] if m_ % 2 else 0.5 * (s2[m_ // 2 - 1] + s2[m_ // 2])
+    for n_ in (1, 2, 3, 4, 6, 7, 8, 9, 11):
+        vals_ = [float((7 * k_ * k_ + 3 * k_) % 23) - 9.5 + 0.125 * k_ for k_ in range(n_)]          # (distinct, unsorted, of both signs)
+        for f_, vec, want_ in (('MEDIAN', vals_, med_(vals_)), ('MAD', vals_, med_([abs(x_) for x_ in vals_])),
+                               ('MAD', vals_ + [NANV], med_([abs(x_) for x_ in vals_])), ('MAD', [NANV] + vals_, med_([abs(x_) for x_ in vals_]))):
+            text = '%s{v}' % f_
+            counts['order statistics'] = counts.get('order statistics', 0) + 1
+            t = T([O(k_) for k_ in range(len(vec))], 'u', 't')
+            t.call('createAnalyticalFeature', 'v', list(vec))
+            try:
+                got = t.call('operate', text)
+            except orders.Unsupported as ex:
+                raise shape_error('Track.operate(%r) not interpretable: %s' % (text, ex), fo.loc())
+            except orders.PROGRAM_ERRORS as ex:
+                found.setdefault(('order statistics', 'fails'), ('the expression is evaluated', {'expression': text, 'v': [None if isn(x_) else x_ for x_ in vec], 'exception': '%s: %s' % (type(ex).__name__, str(ex)[:160])}))
+                continue
+            g_ = got[0] if isinstance(got, list) and got else got
+            if not (isinstance(g_, (int, float)) and close(g_, want_)) or (isinstance(got, list) and not all(close(x_, want_) for x_ in got)):
+                found.setdefault(('order statistics', 'value'), ('the median (of the absolute values, for MAD) is the middle value of an odd number of values and the mean of the two middle values of an even number',
+                                                                 {'expression': text, 'v': [None if isn(x_) else x_ for x_ in vec], 'values that are not NaN': len([x_ for x_ in vec if not isn(x_)]),
+                                                                  'returned': got[:2] if isinstance(got, list) else repr(got), 'expected': want_}))
     for (family, key), (desc, wit) in sorted(found.items()):
         ctx.violation('C02.G', fo, '%s: %s' % (family, desc), wit, node=fo.node, key='%s:%s' % (family, key))
     for family, n_ in sorted(counts.items()):
